@@ -6,12 +6,14 @@ CONSTANTS
   Fwd = {"p1", "p2"}
   Ids = {"m1", "m2", "n1"}
   T2Ids = {"n1"}
-  LocalIds = {"m1"}
+  LocalIds = {"m1", "m2"}
   Workers = {"w1", "w2"}
-  Calls = {"c1"}
+  Calls = {"c1", "c2"}
   Subs = {"s1", "s2"}
   NVmax = 5
   QCap = 2
+  MaxDown = 1
+  Modes = {"pub", "batch"}
   MaxBatch = 2
   MaxCopies = 3
   Verdicts = {"A", "R", "I", "U"}
